@@ -308,6 +308,10 @@ func Check(c *Case, r *mon.R) {
 		r.Inconclusive("foreign_compile_anomaly")
 		return
 	}
+	if o.Mutated != "" {
+		r.Violation("", "Compile(%q) changed the parameter map it was given (%s): the next call with that map sees a binding nobody passed", src, o.Mutated)
+		return
+	}
 	if err != nil {
 		r.Inconclusive("foreign_compile_error")
 		r.SetAdd("foreign_compile_errors", clip(err.Error(), 120))
@@ -365,11 +369,14 @@ func Check(c *Case, r *mon.R) {
 		r.Inconclusive("foreign_compile_anomaly")
 		return
 	}
+	if o2.Mutated != "" {
+		r.Violation("", "Compile(%q) changed the parameter map it was given (%d entries: %s): the next call with that map sees a binding nobody passed", src2, len(p2), o2.Mutated)
+		return
+	}
 	if err2 != nil || sql2 != sql {
 		r.Violation("", "an unused let, an unused parameter and lets after the query change the result:\n  %s  (parameters %v)\n  => %s\n  %s  (parameters %v)\n  => %s %v", src, params, sql, src2, p2, sql2, err2)
 		return
 	}
-	// the caller's map is not modified
 	r.Count("rows_evaluated", int64(len(rows)))
 	r.SetAdd("positions", c.Pos)
 	if usesBound(c.X, boundNames) && (CountOps(c.X) >= 2 || c.Pos == "project-name") {
